@@ -128,6 +128,16 @@ def collect(prop, repo, scratch, tier, only=None):
             r = fu.result()
             o = Obl('%s.K.%s' % (prop, h), 'kani', 'kani/cbmc', g['props'], unit=g['name'], fn=h, bound=g.get('bound'), where=names.get(h))
             o.status, o.detail, o.seconds = r['status'], r['detail'], r['seconds']
+            if o.status == 'failed':
+                routes = registry().get('routes', {}).get(prop)
+                if routes:
+                    msgs = [m.strip() for m in o.detail[len('Kani: '):].split(' | ')]
+                    mine = [m for m in msgs if any(re.search(rx, m) for rx in routes)]
+                    if not mine:
+                        o.status = 'undecided'
+                        o.detail = 'harness failed only on clauses of other properties (may mask this property\'s clauses): ' + o.detail
+                    else:
+                        o.detail = 'Kani: ' + ' | '.join(mine)
             o.extra['kani_out'] = r.get('out', '')
             o.extra['prepared'] = prepared
             obls.append(o)
